@@ -119,16 +119,33 @@ def r2_r3(ctx, L, hs):
     if "threshold" not in L.lets:
         raise Unestablished("no `let threshold`", c.loc(fn))
     th_outer = L.lets["threshold"][0]
-    ctx.check("R13.2", "threshold-starts-none", pretty(strip(L.lets["threshold"][1]["init"])).endswith("None"), "threshold-initial-value", c.loc(fn), "threshold = None")
+    th_init = strip(L.lets["threshold"][1]["init"])
+    via_map = False
+    if th_init.get("k") == "mcall" and th_init["name"] == "map" and e4.local_hid(th_init["recv"]) == L.params["validation"] and len(th_init["args"]) == 1:
+        # `let threshold = validation.map(|(_, _, limit)| limit)`: Some(limit) iff validation is given
+        cl_ = strip(th_init["args"][0])
+        if cl_.get("k") == "closure" and len(cl_["params"]) == 1:
+            pb_ = pat_binds(cl_["params"][0])
+            bd_ = strip(cl_["body"])
+            pt_ = cl_["params"][0]
+            while pt_.get("k") in ("ref", "deref"):
+                pt_ = pt_["p"]
+            via_map = (pt_.get("k") == "tuple" and len(pt_["ps"]) == 3 and len(pb_) == 1 and pat_binds(pt_["ps"][2]) == pb_ and e4.local_hid(bd_) == pb_[0][1]
+                       and not [x for x in walk(fn["body"]) if x.get("k") in ("assign", "assignop") and e4.local_hid(x["l"]) == th_outer])
+    ctx.check("R13.2", "threshold-starts-none", via_map or pretty(th_init).endswith("None"), "threshold-initial-value", c.loc(fn), "threshold = None (or validation.map(limit))")
     asg = [x for x in walk(fn["body"]) if x.get("k") == "assign" and e4.local_hid(x["l"]) == th_outer]
     ok = len(asg) == 1
+    if via_map:
+        asg = []
+        ctx.ok("R13.2", "threshold-set-iff-validation", "threshold = validation.map(|(_, _, limit)| limit)", c.loc(fn))
     if ok:
         conds = enclosing_conditions(fn["body"], asg[0])
         ok = bool(conds) and strip(conds[-1][0]["c"]).get("k") == "letx" and e4.local_hid(strip(conds[-1][0]["c"])["init"]) == L.params["validation"] and conds[-1][1] == "th"
         lim = pat_binds(strip(conds[-1][0]["c"])["pat"]) if ok else []
         r = strip(asg[0]["r"])
         ok = ok and r.get("k") == "call" and r["callee"].endswith("Some") and lim and e4.local_hid(r["args"][0]) == lim[-1][1]
-    ctx.check("R13.2", "threshold-set-iff-validation", ok, "threshold-assignment", c.loc(fn, asg[0]) if asg else c.loc(fn), "threshold = Some(limit) only under `if let Some((_, _, limit)) = validation`")
+    if not via_map:
+      ctx.check("R13.2", "threshold-set-iff-validation", ok, "threshold-assignment", c.loc(fn, asg[0]) if asg else c.loc(fn), "threshold = Some(limit) only under `if let Some((_, _, limit)) = validation`")
     ctx.check("R13.2", "single-stop-site", len(exits) == 1, "epoch-loop-exits:%d" % len(exits), c.loc(fn, exits[0]) if exits else c.loc(fn, L.epoch), "one `break` out of the epoch loop")
     if not exits:
         return
@@ -285,7 +302,8 @@ def r2_r3(ctx, L, hs):
         ctx.ok("R13.3", "increasing-starts-true", "`increasing` is the conjunction over the window (all)", c.loc(fn, inc))
     else:
         ctx.check("R13.3", "increasing-starts-true", inc is not None and e4.lit_value(inc["init"]) == "true", "increasing-initial-value", c.loc(fn), "increasing = true")
-        loops = [s for s in (inc_block["stmts"] if inc_block else []) if s.get("k") == "for"]
+        loops = [s for s in (inc_block["stmts"] if inc_block else []) if s.get("k") == "for"
+                 and any(x.get("k") in ("assign", "assignop") and e4.local_hid(x["l"]) == inc_h for x in walk(s["body"]))]
         if len(loops) == 1 and hist and inc is not None:
             lp = loops[0]
             iv = pat_binds(lp["pat"])[0]
